@@ -136,3 +136,56 @@ pub fn run_stroke_repeat(l: &[i128]) -> Vec<i128> {
     let b = std::thread::spawn(move || draw(None, &p2)).join().unwrap();
     vec![a.iter().filter(|x| **x != 0).count() as i128, a.iter().zip(b.iter()).filter(|(x, y)| x != y).count() as i128]
 }
+
+/// args: seed sw sh w h quality blend
+/// One source Pixmap object drawn as a Pattern / with draw_pixmap, then changed in place (opaque -> translucent, or the other
+/// way round) and drawn again: the second draw must give the same bytes as drawing a brand-new allocation holding the same
+/// pixels, on a brand-new thread (nothing may be remembered about an image by its address).
+/// -> [bytes != 0, bytes differing]
+pub fn run_pattern_reuse(l: &[i128]) -> Vec<i128> {
+    if l.len() < 7 {
+        return vec![-3];
+    }
+    let mut st = l[0] as u64 ^ 0x1357_9BDF_0246_8ACE;
+    let mut next = move || {
+        st = st.wrapping_mul(6364136223846793005).wrapping_add(1442695040888963407);
+        (st >> 33) as u32
+    };
+    let (sw, sh, w, h) = (l[1] as u32, l[2] as u32, l[3] as u32, l[4] as u32);
+    let quality = [FilterQuality::Nearest, FilterQuality::Bilinear, FilterQuality::Bicubic][(l[5] as usize) % 3];
+    let blend = [BlendMode::SourceOver, BlendMode::SourceOver, BlendMode::Source, BlendMode::Multiply, BlendMode::DestinationOver][(l[6] as usize) % 5];
+    let first_opaque = (l[6] / 5) % 2 == 0;
+    let mut fill = |pm: &mut Pixmap, opaque: bool| {
+        for p in pm.pixels_mut() {
+            let a = if opaque { 255 } else { [0u32, 40, 128, 200, 255][(next() % 5) as usize] };
+            *p = PremultipliedColorU8::from_rgba((next() % (a + 1)) as u8, (next() % (a + 1)) as u8, (next() % (a + 1)) as u8, a as u8).unwrap();
+        }
+    };
+    let mut src = match Pixmap::new(sw, sh) {
+        Some(v) => v,
+        None => return vec![-3],
+    };
+    let draw = move |src: &Pixmap| -> Vec<u8> {
+        let mut pm = Pixmap::new(w, h).unwrap();
+        pm.fill(Color::from_rgba8(200, 30, 90, 255));
+        let mut paint = Paint::default();
+        paint.shader = Pattern::new(src.as_ref(), SpreadMode::Repeat, quality, 1.0, Transform::from_row(1.25, 0.0, 0.0, 0.75, 1.0, 2.0));
+        paint.blend_mode = blend;
+        pm.fill_rect(Rect::from_xywh(1.0, 1.0, w as f32 - 2.0, h as f32 - 2.0).unwrap(), &paint, Transform::identity(), None);
+        let pp = PixmapPaint { opacity: 1.0, blend_mode: blend, quality };
+        pm.draw_pixmap(2, 3, src.as_ref(), &pp, Transform::identity(), None);
+        pm.data().to_vec()
+    };
+    fill(&mut src, first_opaque);
+    let _ = draw(&src);
+    fill(&mut src, !first_opaque);
+    let a = draw(&src);
+    let copy = src.data().to_vec();
+    let b = std::thread::spawn(move || {
+        let fresh = Pixmap::from_vec(copy, IntSize::from_wh(sw, sh).unwrap()).unwrap();
+        draw(&fresh)
+    })
+    .join()
+    .unwrap();
+    vec![a.iter().filter(|x| **x != 0).count() as i128, a.iter().zip(b.iter()).filter(|(x, y)| x != y).count() as i128]
+}
